@@ -46,6 +46,15 @@ def base_traffic(rng, tree, keys, cr, nonce):
     out.append(("get_peers", fr(GetPeersMessage(), rng)))
     out.append(("peers", fr(PeersMessage([Peer(0, IPv6Address("::ffff:10.1.2.%d" % rng.randrange(1, 250)), 2412)
                                           for _ in range(rng.randrange(0, 3))]), rng)))
+    # announced addresses that are not IPv4-mapped (native IPv6, or a mapped address with one bit of the prefix flipped)
+    odd = []
+    for _ in range(rng.randrange(1, 4)):
+        if rng.random() < 0.5:
+            odd.append(Peer(0, IPv6Address(rng.getrandbits(128)), 2412))
+        else:
+            v = int(IPv6Address("::ffff:10.1.2.%d" % rng.randrange(1, 250))) ^ (1 << rng.randrange(32, 128))
+            odd.append(Peer(0, IPv6Address(v), rng.choice([2412, 0, 65535])))
+    out.append(("peers_not_ipv4_mapped", fr(PeersMessage(odd), rng)))
     # structurally invalid / rule-violating blocks and transactions
     for _ in range(3):
         klass = rng.choice([c for c in ledger.classes_for("all") if c not in ledger.EXPECT_VALID
